@@ -188,6 +188,12 @@ fn unicode_string(rng: &mut Rng) -> String {
 /// Strings near the valid grammars with multi-byte characters placed to straddle byte offsets
 /// 4, 12, 13, 15, 19.
 fn near_valid(rng: &mut Rng) -> String {
+    if rng.chance(1, 6) {
+        // a well-formed archive name whose date field is eight digits and no date; the same one
+        // comes back every few calls (a name asked about twice)
+        let bad = ["20230229", "20241301", "20240431", "20240600", "19000229", "20240230", "21000229"];
+        return format!("KDMX{}_{:02}{:02}{:02}_V06", bad[rng.usize_below(bad.len())], rng.below(24), rng.below(60), rng.below(60));
+    }
     let base = if rng.chance(1, 2) { "KDMX20240813_123330_V06" } else { "20240813-123330-014-I" };
     let mut chars: Vec<char> = base.chars().collect();
     for _ in 0..rng.urange(1, 3) {
@@ -217,8 +223,11 @@ fn totality(obs: &mut Obs, s: &str, shape: u64) {
         let a = Identifier::new(s.to_string());
         let site = a.site().map(|x| x.to_string());
         let dt = a.date_time();
+        // asked again at once, the same identifier says the same (and a copy of it too)
+        let again = (a.date_time(), a.clone().date_time(), a.site().map(|x| x.to_string()));
+        let consistent = again.0 == dt && again.1 == dt && again.2 == site;
         let c = ChunkIdentifier::new("KDMX".into(), VolumeIndex::new(1), s.to_string(), None);
-        (site, dt, c.sequence(), c.chunk_type(), a.name().to_string(), format!("{:?}", c))
+        (site, dt, c.sequence(), c.chunk_type(), a.name().to_string(), format!("{:?}", c), consistent)
     });
     match r {
         Err(p) => obs.violation(
@@ -226,14 +235,27 @@ fn totality(obs: &mut Obs, s: &str, shape: u64) {
             format!("{} on {:?}", p.message, s),
             replay,
         ),
-        Ok((site, dt, seq, ct, _name, _dbg)) => {
+        Ok((site, dt, seq, ct, _name, _dbg, consistent)) => {
             obs.count("arbitrary_strings_returned_without_panic", 1);
+            if !consistent {
+                obs.violation("an identifier asked twice in a row gives different answers", format!("{:?}: first {:?}", s, dt), replay.clone());
+            }
             // none when the text does not parse (judged only where unparsable is unambiguous)
             let b = s.as_bytes();
             if b.len() < 4 && site.is_some() {
                 obs.violation("site() gives a value for a name shorter than four bytes", format!("{:?}", site), replay.clone());
             }
             let letters_in = |r: std::ops::Range<usize>| b.get(r).map(|x| x.iter().any(|c| c.is_ascii_alphabetic() || *c >= 0x80)).unwrap_or(true);
+            // eight digits that are no calendar date (month 13, 31 April, 29 February of a common
+            // year, day 00) do not parse either
+            let not_a_date = b.len() >= 12 && b[4..12].iter().all(|c| c.is_ascii_digit()) && {
+                let num = |r: std::ops::Range<usize>| std::str::from_utf8(&b[r]).ok().and_then(|t| t.parse::<i64>().ok()).unwrap_or(0);
+                let (y, m, d) = (num(4..8), num(8..10), num(10..12));
+                m < 1 || m > 12 || d < 1 || d > cal::days_in_month(y, m as u32) as i64
+            };
+            if not_a_date && dt.is_some() {
+                obs.violation("date_time() gives a value for a date field that is no calendar date", format!("{:?} -> {:?}", s, dt), replay.clone());
+            }
             if (b.len() < 19 || letters_in(4..12) || letters_in(13..19)) && dt.is_some() {
                 obs.violation("date_time() gives a value for text that does not parse", format!("{:?} -> {:?}", s, dt), replay.clone());
             }
@@ -289,7 +311,7 @@ distinct = distinct positions / names / strings; oracle = reference successor on
     {
         let n = ctx.tier.pick(30_000u64, 600_000u64);
         for k in 0..n {
-            let site = ["KTLX", "KDMX"][(k / 64 % 2) as usize];
+            let site = ["KTLX", "KDMX", "kdmx", "Ktlx", "nop4", "FOP1"][(k / 64 % 6) as usize];
             let vol = *rng.pick(&[1usize, 2, 500, 998, 999]);
             let prefix = if rng.chance(1, 2) {
                 prefixes[rng.usize_below(3)].to_string()
